@@ -61,7 +61,7 @@ theorem par_runs (cfg : PartCfg) (num : Dict Str (List NumAttr)) (c : Bool) (k :
     have hl : ((Xml.elem i pf t m a tx tl ks).ptag == hyperlinkTag) = false := by rw [hx.1]; exact paragraphTag_ne.2.2
     have hcell : isCellTag (Xml.elem i pf t m a tx tl ks) = false := by
       simp only [isCellTag, hx.1]; decide
-    simp only [walk, hdep, hl, Bool.false_eq_true, if_false, hcell, Bool.or_false] at h
+    simp only [walk, hdep, hl, Bool.false_eq_true, if_false, hcell, Bool.or_false, setCaretOpen_noImpl s _ _ (noImpl_of_closed ho.closed)] at h
     obtain ⟨s1, h1, h⟩ := bind_ok h
     have f1 := setCaret_frame s s1 _ _ h1
     obtain ⟨roots, hr, h⟩ := bind_ok h
@@ -100,8 +100,7 @@ theorem par_runs (cfg : PartCfg) (num : Dict Str (List NumAttr)) (c : Bool) (k :
     obtain ⟨p3, i3, r3, o3⟩ := walkL_runs cfg num k _ c ks _ s3 _ hx.2 im h3
     -- closing the paragraph
     obtain ⟨s4, h4, h⟩ := bind_ok h
-    unfold closeStep at h4
-    simp only [hm] at h4
+    rw [closeStep_par_one cfg s3 _ p3 hm i3.one] at h4
     have hlast : s3.openPars.getLast? = some p3 := by rw [i3.one]; rfl
     obtain ⟨c1, c2, c3, c4, _⟩ := concludePar_spec s3 s4 p3 hlast h4
     have u4 := concludePar_sty s3 s4 i3.sty h4
